@@ -141,4 +141,88 @@ theorem featuremap_roundtrip (m : FeatureMap) :
 
 example : (FeatureMap.build { spans := [.span 5 (some 2) false false false, .lost 3, .span 7 none false false true], parentLength := 10 }).length = 7 := by decide
 
+/-! ### current (repaired) export branches
+
+The repo now carries the fixes f9c946a7e (new `SeqView.copy(sliced=True)` no longer keeps the old
+offset) and 0de96f35a (`Span.to_rich_dict` exports the live state). `seqCopyNew` /
+`BuiltFeatureMap.toRich` above mirror the code BEFORE those commits; the theorems below are about
+the code as it is now (`seqCopyNewRepaired`, `FeatureState.roundtripJsonLive`), which is what the
+harness correspondence runs first. -/
+
+/-- CURRENT new-style `Sequence.copy(sliced=True)`: for EVERY view satisfying the invariant
+(any offset) the copy succeeds and is observationally the original (no `hoff` needed). -/
+theorem seq_copy_new_repaired_roundtrip {α} [Inhabited α] (parent : List α) (v : View)
+    (hinv : Inv v) (hlen : v.seqLen = parent.length) :
+    ∃ r, seqCopyNewRepaired parent v = .ok r ∧ RebaseOK parent v r := by
+  obtain ⟨r, hr, hok⟩ := old_path parent v hinv hlen
+  refine ⟨r, ?_, hok⟩
+  rw [← hr]
+  simp only [seqCopyNewRepaired, viewCopyNewRepaired, seqRoundtripOld, fromRich, toRich_offset,
+    Option.getD_none, toRich_step]
+
+-- the witness of `seq_copy_new_counter` (offset 5) now round-trips, and a reversed strided view with an offset
+example : (seqCopyNewRepaired [0,1,2,3] { start := 0, stop := 4, step := 1, offset := 5, seqLen := 4 }).toOption
+    = some ([0,1,2,3], { start := 0, stop := 4, step := 1, offset := 5, seqLen := 4 }) := by decide
+example : (seqCopyNewRepaired [0,1,2,3,4,5,6,7,8,9] { start := -3, stop := -10, step := -2, offset := 7, seqLen := 10 }).toOption
+    = some ([1,2,3,4,5,6,7], { start := -1, stop := -8, step := -2, offset := 8, seqLen := 7 }) := by decide
+
+/-- the live-state export of one span re-builds the same span, for every well-formed live span
+(`start ≤ end`), not only freshly constructed ones -/
+theorem span_live_roundtrip (x : SpanState) (h : x.WF) : x.richArgs.build = x := by
+  cases x with
+  | lost l => rfl
+  | span s e ts te r =>
+    have h' : ¬ s > e := by simp only [SpanState.WF] at h; omega
+    simp only [SpanState.richArgs, SpanArgs.build, h', if_false]
+
+/-- CURRENT `FeatureMap.to_rich_dict` → `from_rich_dict` (JSON): every well-formed live map state —
+whatever history of constructor calls and in-place span shifts (`zeroed()`) produced it — comes back
+unchanged: same spans, parent_length and length. -/
+theorem featurestate_json_live_roundtrip (s : FeatureState) (h : s.WF) : s.roundtripJsonLive = s := by
+  obtain ⟨hs, hl⟩ := h
+  have hm : (s.spans.map SpanState.richArgs).map SpanArgs.build = s.spans := by
+    rw [List.map_map]
+    conv => rhs; rw [← List.map_id s.spans]
+    exact List.map_congr_left fun x hx => span_live_roundtrip x (hs x hx)
+  cases s with
+  | mk spans pl len =>
+    simp only [FeatureState.roundtripJsonLive, FeatureState.toRichLive, FeatureMap.build] at hm ⊢
+    simp only [hm]
+    simp only at hl
+    rw [hl]
+
+/-- every constructed map state is well-formed, so the theorem above applies to it -/
+theorem featuremap_build_wf (m : FeatureMap) : (FeatureMap.build m).WF := by
+  refine ⟨?_, rfl⟩
+  intro x hx
+  simp only [FeatureMap.build, List.mem_map] at hx
+  obtain ⟨a, _, rfl⟩ := hx
+  cases a with
+  | lost l => trivial
+  | span s e ts te r =>
+    cases e with
+    | none => simp only [SpanArgs.build, SpanState.WF]; omega
+    | some e =>
+      by_cases h : s > e
+      · simp only [SpanArgs.build, h, if_true, SpanState.WF]; omega
+      · simp only [SpanArgs.build, h, if_false, SpanState.WF]; omega
+
+-- a state NOT in constructor-argument form (as left by `zeroed()`: spans shifted in place, swapped input order)
+example : ({ spans := [.span 0 3 false false true, .lost 2, .span 5 6 true false false], parentLength := 6, length := 6 } : FeatureState).roundtripJsonLive
+    = { spans := [.span 0 3 false false true, .lost 2, .span 5 6 true false false], parentLength := 6, length := 6 } := by decide
+example : (FeatureMap.build { spans := [.span 5 (some 2) false false false, .lost 3, .span 7 none false false true], parentLength := 10 }).roundtripJsonLive
+    = FeatureMap.build { spans := [.span 5 (some 2) false false false, .lost 3, .span 7 none false false true], parentLength := 10 } := by decide
+
+/-- pickle of any well-formed live map state (same re-initialisation from the live values) -/
+theorem featurestate_pickle_roundtrip (s : FeatureState) (h : s.WF) : s.roundtripPickle = s := by
+  have e : SpanState.pickleArgs = SpanState.richArgs := by funext x; cases x <;> rfl
+  have := featurestate_json_live_roundtrip s h
+  simpa only [FeatureState.roundtripJsonLive, FeatureState.toRichLive, FeatureState.roundtripPickle, e] using this
+
+example : ({ spans := [.span 0 3 false false true, .lost 2, .span 5 6 true false false], parentLength := 6, length := 6 } : FeatureState).WF := by
+  refine ⟨?_, by decide⟩
+  intro x hx
+  simp only [List.mem_cons, List.not_mem_nil, or_false] at hx
+  rcases hx with rfl | rfl | rfl <;> simp [SpanState.WF]
+
 end CogentModel.C10
